@@ -216,6 +216,8 @@ def run(tier, replay=None):
     sscen = []
     for server in ("streamable", "streamable-sse", "legacy"):
         for state in states:
+            if state == "in-listroots-late" and server == "legacy":
+                continue      # the registration / write window is gated by a hook of the Streamable server only
             for how in ("close", "reset"):
                 for n in ((1, 2, 3) if tier == "thorough" else (rnd.choice((1, 2, 3)),)):
                     sscen.append({"id": "%s-%s-%s-p%d" % (server, state, how, n), "server": server, "state": state, "how": how, "npeers": n})
